@@ -72,6 +72,11 @@ func doRequest(request *http.Request, executor failsafe.Executor[*http.Response]
 	}
 
 	return executor.GetWithExecution(func(exec failsafe.Execution[*http.Response]) (*http.Response, error) {
+		// Release the previous attempt's response, if any, since it will not be returned
+		if last := exec.LastResult(); last != nil && last.Body != nil {
+			last.Body.Close()
+		}
+
 		ctx, cancel := util.MergeContexts(request.Context(), exec.Context())
 		req := request.WithContext(ctx)
 
